@@ -64,12 +64,36 @@ def _def_node(T, nested):
     return T.cfg.exit
 
 
+def _opaque_scale(t):
+    """Does the term contain a call of something other than a builtin
+    conversion (a helper or method computing the scale)?"""
+    for st_ in subterms(plain(t)):
+        if st_[0] not in ("call", "callv"):
+            continue
+        f_ = st_[1]
+        # a function of the module, or a method of the converter itself
+        # (methods of the values - astype, ... - and numpy's are not that)
+        if f_[0] == "global" and f_[1] not in (
+                "int", "float", "pow", "len", "abs", "min", "max", "np"):
+            return True
+        if f_[0] == "attr" and f_[1] == ("param", "self"):
+            return True
+    return False
+
+
 def r1_scalar(program, rep):
     """The clamp is decided semantically: the outer function is folded for
     every format to find which captured values are the bounds, and the inner
     function is interpreted in the three cases v < lo, lo <= v <= hi, v > hi
     (whatever mixture of min/max calls and branches it is written with)."""
     fn = program.get(MOD + ":float_to_fp")
+    closures = [x for x in ast.walk(fn) if isinstance(x, ast.FunctionDef)
+                and x is not fn]
+    if len(closures) > 1:
+        raise AnalysisError("float_to_fp builds one of several converter "
+                            "closures (%s); the rule reads the one-closure "
+                            "form" % ", ".join(sorted(set(
+                                x.name for x in closures))))
     inner = program.get(MOD + ":float_to_fp.bitsk")
     inst = qual(inner)
     fl = Flow(fn)
@@ -328,6 +352,10 @@ def r2_array(program, folder, rep):
             if m2 is not None:
                 okc = _poly(cfl, m2["v"]) == Poly.atom(vals) * cfl._pow2(
                     Poly.atom("self.n_frac"))
+                if not okc and _opaque_scale(m2["v"]):
+                    raise AnalysisError(
+                        "NumpyFloatToFixConverter.__call__: the scale is "
+                        "obtained from a helper / method; not analysed")
     rep.check(okc and attr_bind("n_frac") == ("param", n_frac),
               "C16-R2", qual(call), "array path: values * 2**n_frac, then "
               "clip(min_value, max_value), then cast",
@@ -408,6 +436,9 @@ def r4_inverse(program, rep):
     ok = len(rets) == 1 and rets[0][0] == "binop" and rets[0][1] == "Div" \
         and rets[0][2] == ("param", formals(call)[1]) and \
         _poly(cfl, rets[0][3]) == cfl._pow2(Poly.atom("self.n_frac"))
+    if not ok and len(rets) == 1 and _opaque_scale(rets[0]):
+        raise AnalysisError("NumpyFixToFloatConverter.__call__: the scale is "
+                            "obtained from a helper / method; not analysed")
     init = program.get(MOD + ":NumpyFixToFloatConverter.__init__")
     I = Terms(init)
     nfd = [b_ for b_ in I.binds if b_.var == "self.n_frac"]
